@@ -28,6 +28,10 @@ TokValue(tok, dt, node) ==
       [] tok.k = "text" -> [k |-> "text", cps |-> tok.cps]
       [] tok.k = "hex" -> [k |-> "bytes", b |-> tok.b]
       [] tok.k = "real" -> tok
+      \* "DefaultValue=" with nothing behind it: the empty text / the empty byte string for the string
+      \* and domain types, no value for numbers
+      [] tok.k = "empty" -> IF dt \in {9, 11} THEN [k |-> "text", cps |-> <<>>]
+                            ELSE IF dt \in {10, 15} THEN [k |-> "bytes", b |-> <<>>] ELSE None
       [] OTHER -> None
 \* meaning of a limit token: for signed types the file holds the two's complement pattern (raw
 \* magnitude tok.v.mag of the type's width) or a plain (possibly negative) decimal number
